@@ -1197,3 +1197,74 @@ func init() {
 			x.check(ok, k+" reconcile-guard-in-every-iteration", x.pos(a), "every path to the next change passes the History.IsEmpty test", "the next change can be applied without the reconcile block having been reached for this one (reconciliation batched over the pack or skipped for some changes): stacked undo positions are normalised against a document that later changes of the pack have already altered")
 		}})
 }
+
+func init() {
+	register(&Rule{ID: "REG.elem", Min: 3, Text: "every element that enters the document is registered: in each Operation.Execute that hands a value to Root.RegisterElement (Set, Add, ArraySet, …), every path from the model insertion to a success return passes the registration — unconditionally, whatever the state of the value (an element that lost the LWW race and is a tombstone from the start is still addressable: its author keeps sending operations into it, and a replica that has no entry for it fails them with 'not applicable datatype')",
+		Run: func(x *Ctx) {
+			reg := x.P.FnObj(crdtPkg + ".(*Root).RegisterElement")
+			opI := x.P.Named(opsPkg + ".Operation")
+			if reg == nil || opI == nil {
+				x.C.Unresolved(x.id(), "Root.RegisterElement / operations.Operation")
+				return
+			}
+			n := 0
+			for _, t := range x.P.Implementers(opI) {
+				if t.Obj().Pkg() != opI.Obj().Pkg() {
+					continue
+				}
+				fn := x.P.MethodOf(t, "Execute")
+				if fn == nil {
+					continue
+				}
+				regs := callsToIn(fn, reg)
+				if len(regs) == 0 {
+					continue
+				}
+				n++
+				k := "op=" + t.Obj().Name()
+				// the registered value
+				val := paramArg(regs[0], 0)
+				// the insertion: the call before the registration that is handed the same value and is a crdt mutator
+				var insert ssa.CallInstruction
+				for _, c := range prog.CallsIn(fn) {
+					o := prog.CallObj(c)
+					if o == nil || o.Pkg() == nil || !strings.HasSuffix(o.Pkg().Path(), "/"+crdtPkg) || sameFunc(o, reg) || o.Name() == "DeepCopy" {
+						continue
+					}
+					if nt := o.Type().(*types.Signature).Recv(); nt == nil || strings.Contains(nt.Type().String(), "Root") {
+						continue
+					}
+					args := c.Common().Args
+					if len(args) > 0 && !c.Common().IsInvoke() {
+						args = args[1:]
+					}
+					for _, a := range args {
+						if prog.Strip(a) == prog.Strip(val) && prog.MayPrecede(c, regs[0]) {
+							insert = c
+						}
+					}
+				}
+				if insert == nil {
+					x.fail(k+" insertion", x.fpos(fn), "no model insertion of the registered value was found before RegisterElement")
+					continue
+				}
+				var vias []ssa.Instruction
+				for _, r := range regs {
+					vias = append(vias, r)
+				}
+				ok := true
+				for _, r := range prog.Returns(fn) {
+					if !prog.ReturnsNilError(r) || !prog.MayPrecede(insert, r) {
+						continue
+					}
+					if !mustPassBetween(insert, r, vias) {
+						ok = false
+					}
+				}
+				x.check(ok, k+" inserted-value-always-registered", x.pos(regs[0]), "every success path after the insertion registers the element", "a success path after the insertion skips Root.RegisterElement (the registration depends on the value's state): the element is in the document but cannot be addressed by the operations its author sends next")
+			}
+			if n < 3 {
+				x.C.Vacuous(x.id()+" operations", n, 3)
+			}
+		}})
+}
